@@ -22,6 +22,13 @@ def run(check, path):
     os.makedirs(os.path.join(core.VERIF_DIR, "out"), exist_ok=True)
     with tempfile.TemporaryDirectory(dir=os.path.join(core.VERIF_DIR, "out")) as td:
         r = runner.run_worker(check.PROPERTY, spec, td, 0, 1800)
+        if "_failed" not in r and not r.get("finding_counts"):
+            # every fourth shard of a check runs with the library's DEBUG log
+            # records formatted: a case that holds is tried that way as well
+            r2 = runner.run_worker(check.PROPERTY, spec, td, 1, 1800, {"VMON_LOGFORMAT": "1"})
+            if "_failed" not in r2 and r2.get("finding_counts"):
+                print("(reproduced with VMON_LOGFORMAT=1: DEBUG log records formatted)")
+                r = r2
     if "_failed" in r:
         print("INCONCLUSIVE replay worker failed:", r["_failed"], r.get("_stderr", "")[-500:])
         return 2
